@@ -57,6 +57,9 @@ func constOperands(lax bool) []tv {
 		{"(1 == 1)", model.True, false}, {`("a" starts with "a")`, model.True, false}, {"(exists($))", model.True, false},
 		{"(1 == 2)", model.False, false}, {`("a" like_regex "b")`, model.False, false}, {`(exists("x" ? (1 == 2)))`, model.False, false},
 		{`(1 == "a")`, model.Unknown, false}, {`(1 starts with "a")`, model.Unknown, false}, {`(null.abs() == 1)`, model.Unknown, false}, {`($ < $)`, model.Unknown, false},
+		// false through an operand that selects nothing (no pair to compare); an error raised inside a nested filter
+		{`("x" ? (1 == 2) == 3)`, model.False, false}, {`("x" ? (1 == 2) != 3)`, model.False, false}, {`(3 == "x" ? (@ == 1))`, model.False, false},
+		{`(exists("x" ? (@ == $missing)))`, model.Unknown, true}, {`("x" ? (exists(@ ? (@ == $missing))) == 1)`, model.Unknown, true},
 		{"($missing == 1)", model.Unknown, true}, {`("2023-08-15".datetime() < "2023-08-15T12:00:00+01:00".datetime())`, model.Unknown, true}, {"(1.decimal(0) == 1)", model.Unknown, true},
 	}
 	if !lax {
